@@ -177,6 +177,20 @@ def move_staticmethod_static_scope(source: str, preserve: Collection[str]) -> st
                     id=moved_function_names[node.attr], ctx=node.ctx, lineno=node.lineno
                 )
 
+    # A method stays where it is unless all attributes with its name are known to refer to it, and
+    # are replaced. It may be reached through a subclass or an instance, for example.
+    moved_names = {
+        name
+        for _, name in name_replacements
+        if all(node in replacements for node in core.walk(root, ast.Attribute(attr=name)))
+    }
+    name_replacements = {
+        (class_name, name): new_name
+        for (class_name, name), new_name in name_replacements.items()
+        if name in moved_names
+    }
+    replacements = {node: new for node, new in replacements.items() if node.attr in moved_names}
+
     if not name_replacements:
         return
 
